@@ -346,6 +346,101 @@ theorem foreign_gets_error5 (expect limit now d cpu src : Nat) (data : Bytes) (s
         [.recv (now + d) (now + d + cpu) src (data.take maxReq), .send (now + d + cpu) src err5] := by
   rw [awaitAck]; simp [hd, hsrc]
 
+/-! ### foreign packets do not interfere (zero handling time, arriving before the deadline)
+
+A datagram from a foreign address, handled in no time, changes nothing but the two events that
+concern the foreign peer itself: the try ends with the same outcome, at the same time, having
+consumed the same rest of the script, and every other event — in particular everything sent to the
+client, with its time stamp — is identical to the run in which the foreign datagram never existed
+and the next datagram simply arrives `d` ticks later. Three cases by what follows it. Because
+`awaitAck` is the only place where events are consumed, this lifts to retries, blocks and whole
+transfers. (A foreign datagram that arrives after the deadline is just carried into the next try
+with its remaining delay and is then covered by the same three statements.) -/
+
+theorem remaining_shift (limit now d : Nat) (hd : d < Tftp.remaining limit now) (d' : Nat) :
+    (d' < Tftp.remaining limit (now + d)) = (d + d' < Tftp.remaining limit now) := by
+  unfold Tftp.remaining at *
+  split at hd
+  · have h1 : limit > now + d := by omega
+    simp only [h1, if_true, ↓reduceIte, eq_iff_iff]
+    rename_i h0
+    simp only [h0, ↓reduceIte]
+    omega
+  · have hd0 : d = 0 := by omega
+    subst hd0
+    simp
+
+theorem foreign_then_pkt (expect limit now d src d' cpu' src' : Nat) (data data' : Bytes) (s : List Ev)
+    (hsrc : src ≠ 0) (hd : d < Tftp.remaining limit now) :
+    awaitAck expect limit now (.pkt d 0 src data :: .pkt d' cpu' src' data' :: s) =
+      (awaitAck expect limit now (.pkt (d + d') cpu' src' data' :: s)).pre
+        [.recv (now + d) (now + d) src (data.take maxReq), .send (now + d) src err5] ∨
+    -- or the next datagram misses the deadline in both runs: same timeout, same carried-over delay
+    (¬ (d + d' < Tftp.remaining limit now) ∧
+      (awaitAck expect limit now (.pkt d 0 src data :: .pkt d' cpu' src' data' :: s)).now =
+        (awaitAck expect limit now (.pkt (d + d') cpu' src' data' :: s)).now ∧
+      (awaitAck expect limit now (.pkt d 0 src data :: .pkt d' cpu' src' data' :: s)).out =
+        (awaitAck expect limit now (.pkt (d + d') cpu' src' data' :: s)).out ∧
+      (awaitAck expect limit now (.pkt d 0 src data :: .pkt d' cpu' src' data' :: s)).rest =
+        (awaitAck expect limit now (.pkt (d + d') cpu' src' data' :: s)).rest) := by
+  have hshift := remaining_shift limit now d hd d'
+  have hrem : now + d + Tftp.remaining limit (now + d) = now + Tftp.remaining limit now := by
+    unfold Tftp.remaining at *
+    split at hd <;> split <;> omega
+  by_cases hin : d + d' < Tftp.remaining limit now
+  · left
+    have hin' : d' < Tftp.remaining limit (now + d) := by rw [hshift]; exact hin
+    rw [foreign_gets_error5 expect limit now d 0 src data _ hsrc hd]
+    simp only [Nat.add_zero]
+    congr 1
+    rw [awaitAck, awaitAck]
+    simp only [hin, hin', if_true]
+    have e1 : now + d + d' = now + (d + d') := by omega
+    simp only [e1]
+  · right
+    have hin' : ¬ d' < Tftp.remaining limit (now + d) := by rw [hshift]; exact hin
+    refine ⟨hin, ?_, ?_, ?_⟩ <;>
+      (rw [foreign_gets_error5 expect limit now d 0 src data _ hsrc hd]
+       simp only [Nat.add_zero, Res.pre_now, Res.pre_out, Res.pre_rest]
+       rw [awaitAck, awaitAck]
+       simp only [hin, hin', if_false])
+    · exact hrem
+    · congr 2
+      unfold Tftp.remaining at *
+      split at hd <;> split <;> omega
+
+theorem foreign_then_silence (expect limit now d src : Nat) (data : Bytes) (s : List Ev)
+    (hsrc : src ≠ 0) (hd : d < Tftp.remaining limit now) :
+    (awaitAck expect limit now (.pkt d 0 src data :: .silence :: s)).out =
+      (awaitAck expect limit now (.silence :: s)).out ∧
+    (awaitAck expect limit now (.pkt d 0 src data :: .silence :: s)).now =
+      (awaitAck expect limit now (.silence :: s)).now ∧
+    (awaitAck expect limit now (.pkt d 0 src data :: .silence :: s)).rest =
+      (awaitAck expect limit now (.silence :: s)).rest ∧
+    (awaitAck expect limit now (.pkt d 0 src data :: .silence :: s)).obs =
+      [.recv (now + d) (now + d) src (data.take maxReq), .send (now + d) src err5] ++
+      (awaitAck expect limit now (.silence :: s)).obs := by
+  have hrem : now + d + Tftp.remaining limit (now + d) = now + Tftp.remaining limit now := by
+    unfold Tftp.remaining at *
+    split at hd <;> split <;> omega
+  rw [foreign_gets_error5 expect limit now d 0 src data _ hsrc hd]
+  simp only [Nat.add_zero, Res.pre_now, Res.pre_out, Res.pre_rest, Res.pre_obs, awaitAck, hrem]
+  simp
+
+theorem foreign_then_end (expect limit now d src : Nat) (data : Bytes)
+    (hsrc : src ≠ 0) (hd : d < Tftp.remaining limit now) :
+    (awaitAck expect limit now [.pkt d 0 src data]).out = (awaitAck expect limit now []).out ∧
+    (awaitAck expect limit now [.pkt d 0 src data]).now = (awaitAck expect limit now []).now ∧
+    (awaitAck expect limit now [.pkt d 0 src data]).obs =
+      [.recv (now + d) (now + d) src (data.take maxReq), .send (now + d) src err5] ++
+      (awaitAck expect limit now []).obs := by
+  have hrem : now + d + Tftp.remaining limit (now + d) = now + Tftp.remaining limit now := by
+    unfold Tftp.remaining at *
+    split at hd <;> split <;> omega
+  rw [foreign_gets_error5 expect limit now d 0 src data _ hsrc hd]
+  simp only [Nat.add_zero, Res.pre_now, Res.pre_out, Res.pre_obs, awaitAck, hrem]
+  simp
+
 /-! ### non-vacuity -/
 
 example : c09Check false [.send 0 0 (dataPacket 1 [1]), .recv 1 1 0 (errorPacket 255 [120]),
